@@ -9,7 +9,8 @@ open VibeProof VibeProof.Proto VibeProof.Codec VibeProof.Dml
 `(selfdel (cols…) (pcols…) (rows R…) i)` → `(ok (R…))`
 `(trunc (fks …) (tables (R…)…) t)` → `(ok (R…)…)` | `(cycle)` | `(fuel)`: TRUNCATE TABLE t CASCADE
 `(casc (fks (child parent (cols…) (pcols…) action)…) (tables (R…)…) t (sel V…))` → `(ok (R…)…)` | `(reject)` | `(fuel)`:
-  whole DELETE of the rows of table t whose first column is in `sel`, recursive cascade, fuel = rows + tables + 1
+  whole DELETE of the rows of table t whose first column is in `sel`, repaired recursive cascade (`deleteWithFksV`,
+  visited set), fuel = rows + tables + 1
 -/
 
 def decAction : String → Option Action
@@ -50,7 +51,7 @@ def handle : List Sx → Sx
     | some fks, some tabs, some t, some ids =>
       let db : Db := fun i => tabs.getD i []
       let fuel := (tabs.map List.length).sum + tabs.length + 1
-      match deleteWithFks fks fuel db t (fun r => ids.contains (r.getD 0 Value.null)) with
+      match deleteWithFksV fks fuel db t [0] (fun r => ids.contains (r.getD 0 Value.null)) with
       | .ok db' => .list (.atom "ok" :: (List.range tabs.length).map (fun i => encRows (db' i)))
       | .error .reject => .list [.atom "reject"]
       | .error .fuel => .list [.atom "fuel"]
